@@ -55,6 +55,7 @@ type GenCfg struct {
 	NoDeclarePrelude                                                                           bool
 	TrackingPct                                                                                int
 	VarLines                                                                                   bool // C03: lines render the pool variables
+	Builtins                                                                                   bool // numeric/conversion built-ins (model-free worlds only: the model does not know them)
 }
 
 type gen struct {
@@ -304,7 +305,14 @@ func (g *gen) jumpE() *Stmt {
 		return &Stmt{K: sJumpE, E: &Expr{K: eBin, Op: "+", A: []*Expr{{K: eStr, S: string(r[:h])}, {K: eStr, S: string(r[h:])}}}}
 	default:
 		if len(g.jvars) > 0 {
-			return &Stmt{K: sJumpE, E: &Expr{K: eVar, S: g.jvars[g.tp.Int(0, len(g.jvars)-1, "jvar")]}}
+			v := &Expr{K: eVar, S: g.jvars[g.tp.Int(0, len(g.jvars)-1, "jvar")]}
+			switch g.tp.Int(0, 3, "jvarform") {
+			case 1: // a computed, state-dependent destination
+				return &Stmt{K: sJumpE, E: g.bin("+", v, &Expr{K: eStr, S: ""})}
+			case 2:
+				return &Stmt{K: sJumpE, E: g.bin("+", &Expr{K: eStr, S: ""}, v)}
+			}
+			return &Stmt{K: sJumpE, E: v}
 		}
 		return &Stmt{K: sJumpE, E: &Expr{K: eStr, S: t}}
 	}
@@ -586,6 +594,23 @@ func (g *gen) expr(ty byte, depth int) *Expr {
 	if depth <= 0 || g.tp.Chance(35, "leaf") {
 		return g.atom(ty)
 	}
+	if g.cfg.Builtins && g.tp.Chance(25, "builtin") {
+		switch ty {
+		case 'n':
+			f := []string{"round", "floor", "ceil", "inc", "dec", "decimal", "integer"}[g.tp.Int(0, 6, "numfn")]
+			if g.tp.Chance(15, "roundplaces") {
+				return &Expr{K: eCall, S: "round_places", A: []*Expr{g.expr('n', depth-1), numLit(float64(g.tp.Int(0, 3, "places")))}}
+			}
+			if g.tp.Chance(10, "numberfn") {
+				return &Expr{K: eCall, S: "number", A: []*Expr{{K: eStr, S: []string{"12", "2.5", "0"}[g.tp.Int(0, 2, "numstr")]}}}
+			}
+			return &Expr{K: eCall, S: f, A: []*Expr{g.expr('n', depth-1)}}
+		case 's':
+			return &Expr{K: eCall, S: "string", A: []*Expr{g.expr([]byte{'n', 'b'}[g.tp.Int(0, 1, "strof")], depth-1)}}
+		case 'b':
+			return &Expr{K: eCall, S: "bool", A: []*Expr{{K: eStr, S: []string{"true", "false"}[g.tp.Int(0, 1, "boolstr")]}}}
+		}
+	}
 	switch ty {
 	case 'n':
 		w := []int{5, 4, 3, 2, 2, 2, 0, 0, 0}
@@ -821,4 +846,79 @@ func (g *gen) ensureYieldingCycles(p *Program) {
 			yf[n.Title] = true
 		}
 	}
+}
+
+// hubProgram builds a looping program: a Hub node that is re-entered several
+// times under a changing counter and dispatches, through a computed jump, to
+// room nodes that jump back. The same statements therefore run repeatedly under
+// different state - the shape on which per-statement caches and missed resets show.
+func (g *gen) hubProgram() *Program {
+	k := g.tp.Int(2, 3, "rooms")
+	g.titles = []string{"Start", "Hub"}
+	for i := 1; i <= k; i++ {
+		g.titles = append(g.titles, fmt.Sprintf("R%d", i))
+	}
+	kinds := []string{"n", "b", "s"}
+	for t := 0; t < 3; t++ {
+		for i := 0; i < g.cfg.NVars[t]; i++ {
+			g.vars[t] = append(g.vars[t], fmt.Sprintf("%s%d", kinds[t], i))
+		}
+	}
+	if len(g.vars[0]) == 0 {
+		g.vars[0] = []string{"n0"}
+	}
+	g.jvars = []string{"j0"}
+	cnt := "cnt"
+	p := &Program{}
+	start := &Node{Title: "Start"}
+	start.Body = append(start.Body, g.prelude()...)
+	start.Body = append(start.Body, &Stmt{K: sDeclare, Var: cnt, E: numLit(0)})
+	start.Body = append(start.Body, g.body(1)...)
+	start.Body = append(start.Body, &Stmt{K: sJump, Target: "Hub"})
+	p.Nodes = append(p.Nodes, start)
+
+	hub := &Node{Title: "Hub"}
+	rounds := g.tp.Int(2, 4, "rounds")
+	hub.Body = append(hub.Body, &Stmt{K: sSet, Var: cnt, Op: "+=", E: numLit(1)})
+	hub.Body = append(hub.Body, &Stmt{K: sIf, Clauses: []*Clause{{Cond: g.bin(">", &Expr{K: eVar, S: cnt}, numLit(float64(rounds))), Body: []*Stmt{g.line(), {K: sStop}}}}})
+	hub.Body = append(hub.Body, g.body(1)...)
+	// state-dependent dispatch
+	disp := &Stmt{K: sIf}
+	for i := 1; i < k; i++ {
+		disp.Clauses = append(disp.Clauses, &Clause{Cond: g.bin("==", g.bin("%", &Expr{K: eVar, S: cnt}, numLit(float64(k))), numLit(float64(i))),
+			Body: []*Stmt{{K: sSet, Var: "j0", Op: "=", E: &Expr{K: eStr, S: fmt.Sprintf("R%d", i)}}}})
+	}
+	disp.Clauses = append(disp.Clauses, &Clause{Body: []*Stmt{{K: sSet, Var: "j0", Op: "=", E: &Expr{K: eStr, S: fmt.Sprintf("R%d", k)}}}})
+	hub.Body = append(hub.Body, disp)
+	v := &Expr{K: eVar, S: "j0"}
+	var dest *Expr
+	switch g.tp.Int(0, 3, "hubjump") {
+	case 0:
+		dest = v
+	case 1:
+		dest = g.bin("+", v, &Expr{K: eStr, S: ""})
+	case 2:
+		dest = g.bin("+", &Expr{K: eStr, S: ""}, v)
+	default:
+		// "R" + string(cnt % k + 1)
+		dest = g.bin("+", &Expr{K: eStr, S: "R"}, &Expr{K: eCall, S: "string", A: []*Expr{g.bin("+", g.bin("%", &Expr{K: eVar, S: cnt}, numLit(float64(k))), numLit(1))}})
+	}
+	hub.Body = append(hub.Body, &Stmt{K: sJumpE, E: dest})
+	p.Nodes = append(p.Nodes, hub)
+	for i := 1; i <= k; i++ {
+		n := &Node{Title: fmt.Sprintf("R%d", i)}
+		if g.tp.Chance(g.cfg.TrackingPct, "tracking") {
+			n.Tracking = []string{"never", "always"}[g.tp.Int(0, 1, "trackkind")]
+		}
+		n.Body = append(n.Body, g.line())
+		n.Body = append(n.Body, g.body(1)...)
+		n.Body = append(n.Body, &Stmt{K: sJump, Target: "Hub"})
+		p.Nodes = append(p.Nodes, n)
+	}
+	if g.cfg.EnterProbe {
+		for _, n := range p.Nodes {
+			n.Body = append([]*Stmt{{K: sCall, E: &Expr{K: eCall, S: "enter", A: []*Expr{{K: eStr, S: n.Title}}}}}, n.Body...)
+		}
+	}
+	return p
 }
